@@ -56,6 +56,19 @@ EVAL_PROGRAMS = {
         {"main.oal": 'use "shapes.oal" as s;\nlet point2 = { \'p num };\nres /w on get -> <s.point2>;\n', "shapes.oal": "let point = { 'x int };\n"}, [], 1),
     "qualifier-that-is-no-import": (
         {"main.oal": "let v = { 'p num };\nres /w on get -> <nowhere.v>;\n"}, [], 1),
+    # one module imported twice, bare and under a qualifier (either order), and under two qualifiers: every import brings its own names
+    "one-module-imported-bare-and-qualified": (
+        {"main.oal": 'use "lib.oal";\nuse "lib.oal" as lib;\nres / on get -> <{ \'a item, \'b lib.item }>;\n', "lib.oal": "let item = int;\n"},
+        [("paths./.get.responses.default.content.application/json.schema.properties.a.type", "integer"),
+         ("paths./.get.responses.default.content.application/json.schema.properties.b.type", "integer")], 0),
+    "one-module-imported-qualified-and-bare": (
+        {"main.oal": 'use "lib.oal" as lib;\nuse "./lib.oal";\nres / on get -> <{ \'a item, \'b lib.item }>;\n', "lib.oal": "let item = str;\n"},
+        [("paths./.get.responses.default.content.application/json.schema.properties.a.type", "string"),
+         ("paths./.get.responses.default.content.application/json.schema.properties.b.type", "string")], 0),
+    "one-module-imported-under-two-qualifiers": (
+        {"main.oal": 'use "lib.oal" as p;\nuse "lib.oal" as q;\nres / on get -> <{ \'a p.item, \'b q.item }>;\n', "lib.oal": "let item = bool;\n"},
+        [("paths./.get.responses.default.content.application/json.schema.properties.a.type", "boolean"),
+         ("paths./.get.responses.default.content.application/json.schema.properties.b.type", "boolean")], 0),
     "declaration-order-is-irrelevant": (
         {"main.oal": "res / on get -> <a>;\nlet a = { 'b b };\nlet b = int;\n"},
         [("paths./.get.responses.default.content.application/json.schema.properties.b.type", "integer")], 0),
@@ -220,59 +233,13 @@ def application_lemmas(o, M, E, f_app, structural):
     mirlib.check_translator(o, ex, "eval_application")
 
 
-def check():
-    o = Outcome("C08")
-    E = mirlib.enums()
-    F = Findings()
-    try:
-        M = mirlib.module("oal-compiler")
+def lookup_lemmas(o, L, S, M, E, on_sat, N, f_lookup=None, f_lb=None):
+    """Env::lookup and Context::lookup_binding answer with the innermost scope that knows the name (shared with C05: renaming a
+    parameter is free only if a parameter shadows whatever else has its name)."""
+    if f_lookup is None:
         f_lookup = M.one(r"^env::<impl[^>]*>::lookup$")
-        f_declare = M.one(r"^env::<impl[^>]*>::declare$")
-        f_open = M.one(r"^env::<impl[^>]*>::open$")
-        f_close = M.one(r"^env::<impl[^>]*>::close$")
-        f_new = M.sel("env", "new", ret=r"^Env$")
-        f_defvar = M.one(r"^(resolve::)?define_variable$")
-        f_declvar = M.one(r"^(resolve::)?declare_variable$")
-        f_declimp = M.one(r"^(resolve::)?declare_import$")
-        f_opend = M.one(r"^(resolve::)?open_declaration$")
-        f_closed = M.one(r"^(resolve::)?close_declaration$")
-        f_openr = M.one(r"^(resolve::)?open_recursion$")
-        f_closer = M.one(r"^(resolve::)?close_recursion$")
-        f_resolve = M.one(r"^(resolve::)?resolve$")
+    if f_lb is None:
         f_lb = M.one(r"^eval::<impl[^>]*>::lookup_binding$")
-        f_push = M.one(r"^eval::<impl[^>]*>::push_scope$")
-        f_pop = M.one(r"^eval::<impl[^>]*>::pop_scope$")
-        f_app = M.one(r"^(eval::)?eval_application$")
-        f_rec = M.one(r"^(eval::)?eval_recursion$")
-        f_bind = M.one(r"^(eval::)?eval_binding$")
-    except Exception as ex:
-        o.inconc("MIR: %s" % str(ex)[-300:])
-        return o.finish()
-    o.functions += [mirlib.func_ref(f, "oal-compiler") for f in (f_lookup, f_declare, f_open, f_close, f_new, f_defvar, f_declvar, f_declimp, f_opend, f_closed,
-                                                                   f_openr, f_closer, f_resolve, f_lb, f_push, f_pop, f_app, f_rec, f_bind)]
-    N = 6 if tier() == "thorough" else 4
-    o.bounds = {"scope_stack_height": "every height 0..%d, every pattern of hits and misses of the looked-up name" % N,
-                "control": "all paths; loops: one arbitrary iteration from an arbitrary state", "values": "unbounded"}
-    o.assumptions = ["iterator adaptors have their documented library meaning (lib/iterchain.py; the set used is listed in evidence)",
-                     "HashMap::get/insert, Vec::push/pop, the syntax accessors and Core::define are uninterpreted",
-                     "the closures of the pipelines are executed from their own MIR"]
-    o.outside = ["composition of the steps over a whole traversal (that open/close calls nest like the tree does is NodeRef::traverse's contract)",
-                 "HashMap's own behaviour", "the order of stdlib vs. imports vs. declarations inside the outermost scope beyond 'a collision is reported as a duplicate'",
-                 "evaluation of whole programs (sampled by the replay oracle only)"]
-    L = mirlib.Lemma(o)
-    S = L.smt
-    bad = []
-
-    def on_sat(name, model):
-        if name not in bad:
-            bad.append(name)
-
-    def structural(name, ok, why=None):
-        o.query(name, "mirsym/structural", "unsat" if ok else "violated", 0)
-        if not ok and (why or name) not in bad:
-            bad.append(why or name)
-        return ok
-
     # ---------------------------------------------------------------- innermost-first lookups
     def slice_facts(terms, base_of, elems, env):
         """Concrete answers of slice::{split_first, split_last, first, last, len, is_empty} on the scope stack for a
@@ -380,6 +347,64 @@ def check():
     else:
         lookup_is_innermost_first(f_lb, "Context::lookup_binding", ["self", "ident"], base,
                                   lambda el: ("app", "HashMap::get", (("addr", ms.proj(("deref", el), ("f", 1), E)), ("sym", "ident"))))
+
+
+
+def check():
+    o = Outcome("C08")
+    E = mirlib.enums()
+    F = Findings()
+    try:
+        M = mirlib.module("oal-compiler")
+        f_lookup = M.one(r"^env::<impl[^>]*>::lookup$")
+        f_declare = M.one(r"^env::<impl[^>]*>::declare$")
+        f_open = M.one(r"^env::<impl[^>]*>::open$")
+        f_close = M.one(r"^env::<impl[^>]*>::close$")
+        f_new = M.sel("env", "new", ret=r"^Env$")
+        f_defvar = M.one(r"^(resolve::)?define_variable$")
+        f_declvar = M.one(r"^(resolve::)?declare_variable$")
+        f_declimp = M.one(r"^(resolve::)?declare_import$")
+        f_opend = M.one(r"^(resolve::)?open_declaration$")
+        f_closed = M.one(r"^(resolve::)?close_declaration$")
+        f_openr = M.one(r"^(resolve::)?open_recursion$")
+        f_closer = M.one(r"^(resolve::)?close_recursion$")
+        f_resolve = M.one(r"^(resolve::)?resolve$")
+        f_lb = M.one(r"^eval::<impl[^>]*>::lookup_binding$")
+        f_push = M.one(r"^eval::<impl[^>]*>::push_scope$")
+        f_pop = M.one(r"^eval::<impl[^>]*>::pop_scope$")
+        f_app = M.one(r"^(eval::)?eval_application$")
+        f_rec = M.one(r"^(eval::)?eval_recursion$")
+        f_bind = M.one(r"^(eval::)?eval_binding$")
+    except Exception as ex:
+        o.inconc("MIR: %s" % str(ex)[-300:])
+        return o.finish()
+    o.functions += [mirlib.func_ref(f, "oal-compiler") for f in (f_lookup, f_declare, f_open, f_close, f_new, f_defvar, f_declvar, f_declimp, f_opend, f_closed,
+                                                                   f_openr, f_closer, f_resolve, f_lb, f_push, f_pop, f_app, f_rec, f_bind)]
+    N = 6 if tier() == "thorough" else 4
+    o.bounds = {"scope_stack_height": "every height 0..%d, every pattern of hits and misses of the looked-up name" % N,
+                "control": "all paths; loops: one arbitrary iteration from an arbitrary state", "values": "unbounded"}
+    o.assumptions = ["iterator adaptors have their documented library meaning (lib/iterchain.py; the set used is listed in evidence)",
+                     "HashMap::get/insert, Vec::push/pop, the syntax accessors and Core::define are uninterpreted",
+                     "the closures of the pipelines are executed from their own MIR"]
+    o.outside = ["composition of the steps over a whole traversal (that open/close calls nest like the tree does is NodeRef::traverse's contract)",
+                 "HashMap's own behaviour", "the order of stdlib vs. imports vs. declarations inside the outermost scope beyond 'a collision is reported as a duplicate'",
+                 "evaluation of whole programs (sampled by the replay oracle only)"]
+    L = mirlib.Lemma(o)
+    S = L.smt
+    bad = []
+
+    def on_sat(name, model):
+        if name not in bad:
+            bad.append(name)
+
+    def structural(name, ok, why=None):
+        o.query(name, "mirsym/structural", "unsat" if ok else "violated", 0)
+        if not ok and (why or name) not in bad:
+            bad.append(why or name)
+        return ok
+
+    lookup_lemmas(o, L, S, M, E, on_sat, N, f_lookup, f_lb)
+    SELF = ("deref", ("sym", "self"))
 
     # ---------------------------------------------------------------- Env: scope discipline
     ex = mirlib.executor([M])
@@ -508,6 +533,8 @@ def check():
     order_ok = True
     depth_ok = True
     imports_first = True
+    prologue_all = True
+    n_prologue = 0
     for p in outs:
         if p.kind not in ("backedge", "return"):
             continue
@@ -551,6 +578,14 @@ def check():
             continue
         tail = [e for e in ev[loops[-1] + 1:] if e[0] == "call"]
         tn = [e[1] for e in tail]
+        if any(nme.endswith("Iterator::next") for nme in tn) and "NodeRef::traverse" not in names:
+            # one arbitrary iteration of a prologue loop: the import / declaration the iterator offers is declared - every one
+            # of them, whatever was declared before (two imports of one module under two qualifiers are two sets of names)
+            nx0 = [e for e in tail if e[1].endswith("Iterator::next")][-1]
+            item0 = ms.proj(ms.proj(nx0[3], ("v", "Some"), E), ("f", 0), E)
+            decl0 = [e for e in tail if e[1] in ("declare_import", "declare_variable") and any(t == item0 for a in e[2] for t in ms.subterms(a))]
+            prologue_all = prologue_all and len(decl0) == 1
+            n_prologue += 1
         if not any(nme.endswith("Iterator::next") for nme in tn) or "NodeRef::traverse" not in names:
             continue
         nx = [e for e in tail if e[1].endswith("Iterator::next")][-1]
@@ -585,6 +620,8 @@ def check():
     structural("resolve: built-ins are declared first, then imports, then the module's declarations, then the tree is traversed", order_ok)
     structural("resolve: every import is declared before the first declaration of the module is (a clash is then reported at the declaration, whatever the textual order)", imports_first)
     structural("resolve: built-ins, imports and the module's declarations go into the same outermost scope", depth_ok)
+    structural("resolve: every import and every declaration the program offers is declared (no iteration of the two prologue loops skips its item)", prologue_all and n_prologue >= 2,
+               "resolve: an iteration of a prologue loop does not declare the import / declaration it was offered" if n_prologue >= 2 else "resolve: prologue loops not found (%d)" % n_prologue)
     o.extra["resolve_dispatch_paths"] = roles
     if min(roles.values()) == 0:
         o.inconc("resolve: a dispatch role has no path (%s)" % roles)
